@@ -47,11 +47,15 @@ def run(ctx):
     with ThreadPoolExecutor(nproc) as ex:
         results = list(ex.map(lambda ch: ctx.run_vh(["c04"], dict(cases=ch), timeout=3000, tags=("g_keccak",)) if ch else [], chunks))
     n = 0
+    nested = 0
     for res in results:
         for x in res:
             if x.get("kind") == "spec-vs-reference":
                 raise Infra("spec digest differs from x/crypto/sha3 (spec bug): %s" % json.dumps(x)[:300])
-            n += 1
+            if x.get("kind") == "keccak-nested":
+                nested += 1
+            else:
+                n += 1
             if not x["ok"]:
                 ctx.violation("Keccak gadget disagrees with Keccak.tla: %s expected=%s observed=%s (%s)" % (x["id"], x.get("expected"), x.get("observed"), x.get("detail")),
                               dict(kind="c04", cases=x.get("case")))
@@ -62,6 +66,7 @@ def run(ctx):
     ctx.evaluations = n
     ctx.cov["lengths"] = len(lens_full)
     ctx.cov["r1cs_cases"] = len(seen_r1cs)
+    ctx.cov["nested_window_circuits"] = nested
     ctx.cov["rule"] = ("behaviours of the sponge machine KeccakMC.tla for every (byte length, content class, domain) of the tier; the spec's digest must be "
                        "the gadget's output in the test engine (and in the compiled R1CS for boundary/production lengths) and a one-bit-different digest must be rejected")
 
